@@ -44,10 +44,12 @@ def new_helpers(prog, vocab):
     present = {strip_generics(b.path) for b in prog.bodies if b.kind in ("fn", "assoc_fn")}
     crate_mods = {v.split("::")[0] for v in vocab if not v.startswith("<")}
     missing = {}
+    missing_sigs = {}
+    sigs = load_sigs()
     for v in vocab:
         if v not in present:
             missing[v.rsplit("::", 1)[0]] = missing.get(v.rsplit("::", 1)[0], 0) + 1
-    sigs = load_sigs()
+            missing_sigs.setdefault(v.rsplit("::", 1)[0], []).append(sigs.get(v))
     for b in prog.bodies:
         if b.kind not in ("fn", "assoc_fn"):
             continue
@@ -64,13 +66,26 @@ def new_helpers(prog, vocab):
             continue
         pre = strip_generics(b.path).rsplit("::", 1)[0]
         if missing.get(pre, 0) > 0:
-            missing[pre] -= 1
-            continue
+            # renamed = takes the place of a vanished function *with the same parameter types* (when the pinned
+            # signatures are known); a new function with another signature is a helper even if functions vanished
+            cs_ = [b.local_ty(i) for i in range(1, b.arg_count + 1)]
+            ms_ = missing_sigs.get(pre, [])
+            if any(m_ is None for m_ in ms_) or cs_ in ms_:
+                missing[pre] -= 1
+                if cs_ in ms_:
+                    ms_.remove(cs_)
+                elif None in ms_:
+                    ms_.remove(None)
+                continue
         it_ = b.raw.get("impl_trait")
         if it_:
             # methods of an impl of a trait that itself is new in this tree (a private trait introduced to share code)
             tr_new = not any(v.startswith(it_ + "::") or (" as " + it_ + ">") in v for v in vocab) and it_.split("::")[0] in crate_mods
-            if not tr_new:
+            # ... or of a std trait for a type that is new in this tree (Default / Deref / From of a new wrapper type)
+            st_ = re.sub(r"<.*$", "", b.raw.get("impl_self") or "")
+            ty_new = bool(st_) and st_.split("::")[0] in crate_mods and not any(st_ in v for v in vocab) \
+                and it_.split("::")[0] in ("core", "alloc", "std")
+            if not tr_new and not ty_new:
                 continue
         if b.raw.get("reachable") is True or b.n > MAX_BLOCKS:
             continue
@@ -105,6 +120,7 @@ def _place(p, loff, smap):
     return q
 
 
+_CRATE_ENUMS = set()  # paths of the crate's enum types (set by inlined_facts)
 _IMPL_INDEX = {}     # (self type, trait path) -> {method name: impl item path}; set by inlined_facts
 
 
@@ -282,13 +298,17 @@ def desugar_extend(raws, facts):
             if t["k"] != "call" or blk["cleanup"]:
                 continue
             fr = op_fn(t["func"])
-            if fr is None or not (fr.get("resolved") or "").startswith("<alloc::vec::Vec<T, A> as core::iter::traits::collect::Extend<T>>::extend") \
-                    or len(t["args"]) != 2 or t.get("t") is None:
+            if fr is None or len(t["args"]) != 2 or t.get("t") is None:
                 continue
-            it_op = t["args"][1]
-            clo_op = None
+            is_extend = (fr.get("resolved") or "").startswith("<alloc::vec::Vec<T, A> as core::iter::traits::collect::Extend<T>>::extend")
+            # `iter.for_each(f)` is `for x in iter { f(x) }`
+            is_for_each = fr["path"].endswith("iterator::Iterator::for_each")
+            if not is_extend and not is_for_each:
+                continue
+            it_op = t["args"][1] if is_extend else t["args"][0]
+            clo_op = t["args"][1] if is_for_each else None
             p = mir.op_place(it_op)
-            if p is not None and not p["p"]:
+            if is_extend and p is not None and not p["p"]:
                 ds = [d for d in body.defs.get(p["l"], []) if d[0] in ("stmt", "call")]
                 if len(ds) == 1 and ds[0][0] == "call":
                     mt = ds[0][2]
@@ -306,7 +326,7 @@ def desugar_extend(raws, facts):
                             clo_raw = raws[ag["closure"]]
                 if clo_raw is None:
                     continue
-            elem_ty = (fr.get("resolved_args") or fr.get("args") or ["?"])[0]
+            elem_ty = (fr.get("resolved_args") or fr.get("args") or ["?"])[0] if is_extend else "()"
             line = t.get("line")
             L = raw["locals"]
 
@@ -344,7 +364,7 @@ def desugar_extend(raws, facts):
                 pstm.append({"k": "assign", "place": {"l": l_cref, "p": []}, "rv": {"ref": {"l": cp["l"], "p": list(cp["p"])}, "mut": True}, "line": line, "exp": None, "inl": True})
                 B.append({"cleanup": False, "stmts": pstm,
                           "term": {"k": "call", "func": fnref(clo_raw["path"]), "args": [{"move": {"l": l_cref, "p": []}}, {"move": {"l": l_x, "p": []}}],
-                                   "dest": {"l": l_y, "p": []}, "t": Q, "unwind": None, "line": line, "exp": None}})
+                                   "dest": {"l": l_y, "p": []}, "t": Q if is_extend else H, "unwind": None, "line": line, "exp": None}})
             B.append({"cleanup": False, "stmts": [],
                       "term": {"k": "call", "func": fnref("alloc::vec::Vec::<T, A>::push", args=[elem_ty, "alloc::alloc::Global"]),
                                "args": [{"copy": mir.op_place(t["args"][0])} if mir.op_place(t["args"][0]) is not None else t["args"][0], {"move": {"l": l_y, "p": []}}],
@@ -352,7 +372,7 @@ def desugar_extend(raws, facts):
             B.append({"cleanup": False, "stmts": [], "term": {"k": "unreachable", "line": line, "exp": None}})
             # the extend call becomes `it = into_iter(iterable)` -> header
             blk["term"] = {"k": "call", "func": fnref("core::iter::traits::collect::IntoIterator::into_iter"), "args": [it_op], "dest": {"l": l_it, "p": []},
-                           "t": H, "unwind": None, "line": line, "exp": None, "desugared": "extend"}
+                           "t": H, "unwind": None, "line": line, "exp": None, "desugared": "extend" if is_extend else "for_each"}
             if clo_raw is not None:
                 inline_call(raw, P, copy.deepcopy(clo_raw))
             n += 1
@@ -731,6 +751,133 @@ def unbundle_params(raws, facts, sigs):
     return done
 
 
+def _split_args(s):
+    """top-level comma split of the text between the outer < > of a type"""
+    out, depth, cur = [], 0, ""
+    for ch in s:
+        if ch in "<([":
+            depth += 1
+        elif ch in ">)]":
+            depth -= 1
+        if ch == "," and depth == 0:
+            out.append(cur.strip())
+            cur = ""
+        else:
+            cur += ch
+    if cur.strip():
+        out.append(cur.strip())
+    return out
+
+
+def _erase_in_ty(ty, nts):
+    """replace every `<newtype path><args>` in the type string by the newtype's inner type (parameters substituted)"""
+    for _ in range(4):
+        hit = False
+        for path, (inner, params) in nts.items():
+            i = ty.find(path)
+            while i >= 0:
+                j = i + len(path)
+                pre_ok = i == 0 or not (ty[i - 1].isalnum() or ty[i - 1] in "_:")
+                if not pre_ok or (j < len(ty) and (ty[j].isalnum() or ty[j] in "_:")):
+                    i = ty.find(path, j)
+                    continue
+                args = []
+                if j < len(ty) and ty[j] == "<":
+                    depth, k = 0, j
+                    while k < len(ty):
+                        if ty[k] == "<":
+                            depth += 1
+                        elif ty[k] == ">":
+                            depth -= 1
+                            if depth == 0:
+                                break
+                        k += 1
+                    args = [a for a in _split_args(ty[j + 1:k]) if not a.startswith("'")]
+                    j = k + 1
+                rep = inner
+                if params and len(args) == len(params):
+                    rep = re.sub(r"\b(%s)\b(?!::)" % "|".join(map(re.escape, params)), lambda m: args[params.index(m.group(1))], inner)
+                ty = ty[:i] + rep + ty[j:]
+                hit = True
+                i = ty.find(path, i + len(rep))
+        if not hit:
+            break
+    return ty
+
+
+def erase_newtypes(raws, facts, vocab):
+    """A crate-private single-field tuple struct that is new in this tree (no pinned function mentions it) is a wrapper
+    around its field: in the view the wrapper is transparent -- the `.0` projection disappears, `Wrapper(x)` is `x`, and
+    types mention the inner type. (The wrapper's own methods are new helpers and have been inlined.)"""
+    nts = {}
+    for a in facts.get("adts", []):
+        if a.get("kind") != "Struct" or a.get("reachable") is True or len(a.get("variants", [])) != 1:
+            continue
+        fs = a["variants"][0]["fields"]
+        if len(fs) != 1 or fs[0]["name"] != "0":
+            continue
+        p = a["path"]
+        if any(p in v for v in vocab):
+            continue
+        params = None
+        for raw in raws.values():
+            isf = raw.get("impl_self") or ""
+            if isf.startswith(p + "<") and raw.get("generics") is not None and not raw.get("impl_trait"):
+                params = [x for x in _split_args(isf[len(p) + 1:-1]) if not x.startswith("'")]
+                break
+        if params is None:
+            params = []
+            for m in re.finditer(r"(?<![\w:])([A-Z]\w*)(?![\w:<])", fs[0]["ty"]):
+                if m.group(1) not in params:
+                    params.append(m.group(1))
+        nts[p] = (fs[0]["ty"], params)
+    if not nts:
+        return facts.get("adts", []), []
+
+    def fix_place(pl):
+        if not pl.get("p"):
+            return
+        newp = []
+        for e in pl["p"]:
+            if isinstance(e, dict) and e.get("adt") in nts and e.get("f") == 0:
+                continue
+            if isinstance(e, dict) and "ty" in e:
+                e["ty"] = _erase_in_ty(e["ty"], nts)
+            newp.append(e)
+        pl["p"] = newp
+
+    def walk(x):
+        if isinstance(x, dict):
+            if "l" in x and "p" in x and isinstance(x["p"], list):
+                fix_place(x)
+                return
+            for v in x.values():
+                walk(v)
+        elif isinstance(x, list):
+            for v in x:
+                walk(v)
+
+    for raw in raws.values():
+        for l in raw["locals"]:
+            l["ty"] = _erase_in_ty(l["ty"], nts)
+        for blk in raw["blocks"]:
+            for st in blk["stmts"]:
+                if st["k"] == "assign" and "agg" in st.get("rv", {}) and st["rv"]["agg"].get("kind") == "adt" \
+                        and st["rv"]["agg"].get("adt") in nts and len(st["rv"]["agg"]["ops"]) == 1:
+                    st["rv"] = {"use": st["rv"]["agg"]["ops"][0]}
+            walk(blk)
+    adts2 = []
+    for a in facts.get("adts", []):
+        if a["path"] in nts:
+            continue
+        a = copy.deepcopy(a)
+        for v in a.get("variants", []):
+            for f in v["fields"]:
+                f["ty"] = _erase_in_ty(f["ty"], nts)
+        adts2.append(a)
+    return adts2, sorted(nts)
+
+
 def adts_key(adts, ty):
     return ty
 
@@ -738,6 +885,8 @@ def adts_key(adts, ty):
 def inlined_facts(facts, vocab=None):
     """returns (facts2, info) where facts2 is the helper-inlined view, or (None, info) when there is nothing to inline"""
     vocab = vocab if vocab is not None else load_vocab()
+    _CRATE_ENUMS.clear()
+    _CRATE_ENUMS.update(a["path"] for a in facts.get("adts", []) if a.get("kind") == "Enum")
     _IMPL_INDEX.clear()
     for im in facts.get("impls", []):
         if im.get("trait") and im.get("self_adt"):
@@ -826,7 +975,8 @@ def inlined_facts(facts, vocab=None):
                 if raw.get("parent") in dropped_full:
                     raw["parent"] = builder.get(path)
                 raw["root"] = raws.get(owner, {}).get("root", owner) if raws.get(owner, {}).get("kind") == "closure" else owner
-    facts2 = dict(facts, bodies=list(raws.values()))
+    adts2, info["erased_newtypes"] = erase_newtypes(raws, facts, vocab)
+    facts2 = dict(facts, bodies=list(raws.values()), adts=adts2)
     return facts2, info
 
 
@@ -857,7 +1007,7 @@ def thread_variants(raw):
     def _threadable(l):
         ty = raw["locals"][l]["ty"] if l < len(raw["locals"]) else ""
         return ty.startswith(("core::option::Option<", "core::result::Result<", "core::ops::control_flow::ControlFlow<", "core::ops::ControlFlow<")) \
-            or ty in ("bool", "isize", "usize", "u8", "u32", "i32", "u64")
+            or ty in ("bool", "isize", "usize", "u8", "u32", "i32", "u64") or re.sub(r"<.*$", "", ty) in _CRATE_ENUMS
     # only variant-like values are worth separating (a helper's Option / Result / bool return); a payload enum built inside a
     # loop would otherwise peel the loop (its variant is a "fact" on the back edge)
     relevant = {l for l in (raw.get("thread_seeds") or []) if _threadable(l)}
@@ -927,6 +1077,8 @@ def thread_variants(raw):
                 p = mir.op_place(op)
                 if p is not None and not p["p"] and p["l"] in facts:
                     facts[l] = facts[p["l"]]
+                    if "move" in op and p["l"] != l:
+                        facts.pop(p["l"], None)       # moved-from: the value lives in the destination now
         elif "discr" in rv:
             src = rv["discr"]
             if not src["p"] and src["l"] in facts and facts[src["l"]][0] == "v":
@@ -936,6 +1088,53 @@ def thread_variants(raw):
     def key(facts):
         return tuple(sorted(facts.items()))
 
+    # facts are not carried around a loop: a back edge re-enters the header with no facts (otherwise the first iteration
+    # would be peeled off and the loop rules would see two loops)
+    try:
+        _b = mir.Body(raw, None)
+        back_edges = {(x, h) for (h, blocks_, backs_) in _b.loops() for x in backs_}
+    except Exception:
+        back_edges = set()
+    # a fact is dropped where its local is not mentioned any more (continuations that do not look at the value re-merge)
+    def _mentions(x, acc):
+        if isinstance(x, dict):
+            if "l" in x and "p" in x and isinstance(x["l"], int):
+                if x["l"] in relevant:
+                    acc.add(x["l"])
+                for e in x["p"]:
+                    if isinstance(e, dict) and "index" in e and e["index"] in relevant:
+                        acc.add(e["index"])
+                return
+            for v in x.values():
+                _mentions(v, acc)
+        elif isinstance(x, list):
+            for v in x:
+                _mentions(v, acc)
+    ment = []
+    for blk in blocks:
+        acc = set()
+        _mentions(blk["stmts"], acc)
+        _mentions(blk["term"], acc)
+        ment.append(acc)
+    def _ts(t):
+        k = t["k"]
+        if k == "goto":
+            return [t["t"]]
+        if k == "switch":
+            return [bb for _, bb in t["targets"]] + [t["otherwise"]]
+        if k in ("call", "drop", "assert"):
+            return [t["t"]] if t.get("t") is not None else []
+        return []
+    succ_raw = [_ts(blk["term"]) for blk in blocks]
+    live = [set(m) for m in ment]
+    ch_ = True
+    while ch_:
+        ch_ = False
+        for bi in range(len(blocks) - 1, -1, -1):
+            for sb in succ_raw[bi]:
+                if sb is not None and not live[sb] <= live[bi]:
+                    live[bi] |= live[sb]
+                    ch_ = True
     nodes = {}
     order = []
     work = [(0, {})]
@@ -1008,7 +1207,7 @@ def thread_variants(raw):
         outs = []
         for s in succs:
             tb, f2 = s[1], s[2]
-            f2 = {l: v for l, v in f2.items() if l in relevant}
+            f2 = {} if (b, tb) in back_edges else {l: v for l, v in f2.items() if l in relevant and l in live[tb]}
             kk = (tb, key(f2))
             if kk not in nodes:
                 if len(nodes) >= MAX_NODES:
